@@ -5,6 +5,8 @@ import (
 	"fmt"
 	"strings"
 	"testing"
+	"unicode"
+	"unicode/utf8"
 
 	"pgregory.net/rapid"
 
@@ -23,16 +25,42 @@ func subLanguage(s string) bool {
 	if s == "" || s[0] == ' ' || s[len(s)-1] == ' ' || strings.Contains(s, "  ") {
 		return false
 	}
-	for i := 0; i < len(s); i++ {
+	for i := 0; i < len(s); {
 		c := s[i]
+		if c >= 0x80 {
+			r, sz := utf8.DecodeRuneInString(s[i:])
+			if !strings.ContainsRune(emphRunes, r) || i == 0 || i+sz == len(s) {
+				return false
+			}
+			i += sz
+			continue
+		}
 		switch {
 		case c >= 'a' && c <= 'z', c >= 'A' && c <= 'Z', c >= '0' && c <= '9', c == ' ', c == '*', c == '_':
 		case strings.IndexByte(emphPunct, c) >= 0:
 		default:
 			return false
 		}
+		i++
 	}
 	return true
+}
+
+// non-ASCII characters of the sub-language: Unicode white space in the sense of the specification (category Zs:
+// U+00A0, U+3000), characters that are white space for Go's unicode.IsSpace but not for the specification (U+0085,
+// U+2028, U+2029 - they are neither white space nor punctuation here), Unicode punctuation and symbols (P*, S*
+// categories: inverted exclamation mark, guillemets, euro sign, plus-minus sign), letters
+const emphRunes = "\u00a0\u3000\u0085\u2028\u2029\u00a1\u00ab\u00bb\u20ac\u00b1\u00e9\u8a9e"
+
+// the two character classes of the flanking rules (CommonMark 0.31.2, section 6.2)
+func isWSRune(r rune) bool {
+	return r == ' ' || r == '\t' || r == '\n' || r == '\f' || r == '\r' || unicode.Is(unicode.Zs, r)
+}
+func isPunctRune(r rune) bool {
+	if r < 0x80 {
+		return isPunctByte(byte(r))
+	}
+	return unicode.IsPunct(r) || unicode.IsSymbol(r)
 }
 
 // blockish reports whether the single line would not be a plain paragraph.
@@ -79,15 +107,15 @@ func refEmphasis(s string) string {
 			for j < len(s) && s[j] == c {
 				j++
 			}
-			before, after := byte(' '), byte(' ')
+			before, after := ' ', ' '
 			if i > 0 {
-				before = s[i-1]
+				before, _ = utf8.DecodeLastRuneInString(s[:i])
 			}
 			if j < len(s) {
-				after = s[j]
+				after, _ = utf8.DecodeRuneInString(s[j:])
 			}
-			bw, aw := before == ' ' || before == '\n', after == ' ' || after == '\n'
-			bp, ap := isPunctByte(before), isPunctByte(after)
+			bw, aw := isWSRune(before), isWSRune(after)
+			bp, ap := isPunctRune(before), isPunctRune(after)
 			left := !aw && (!ap || bw || bp)
 			right := !bw && (!bp || aw || ap)
 			n := &enode{ch: c, n: j - i, orig: j - i, active: true}
@@ -332,6 +360,12 @@ func TestEmphasisLines(t *testing.T) {
 			if blockish(s) {
 				s = "a" + s
 			}
+			if s[0] >= 0x80 {
+				s = "a" + s
+			}
+			if s[len(s)-1] >= 0x80 {
+				s += "a"
+			}
 			lines = append(lines, s)
 		}
 		w := rapid.IntRange(0, len(emphWraps)-1).Draw(t, "wrap")
@@ -346,7 +380,7 @@ func TestEmphasisLines(t *testing.T) {
 	})
 }
 
-var emphToks = []string{"a", "b", "foo", "bar", "1", " ", " ", "*", "*", "**", "***", "****", "_", "_", "__", "___", ".", ",", "!", "(", ")", "-", "\"", "'", "+", "$", ":", "a*", "*a", "_a", "a_", "*_", "_*", "**_", "a**b", "a_b", "(*", "*)", "_(", ")_"}
+var emphToks = []string{"\u00a0", "\u3000", "\u0085", "\u2028", "\u2029", "\u00a1", "\u00ab", "\u00bb", "\u20ac", "\u00b1", "\u00e9", "\u8a9e", "a", "b", "foo", "bar", "1", " ", " ", "*", "*", "**", "***", "****", "_", "_", "__", "___", ".", ",", "!", "(", ")", "-", "\"", "'", "+", "$", ":", "a*", "*a", "_a", "a_", "*_", "_*", "**_", "a**b", "a_b", "(*", "*)", "_(", ")_"}
 
 func TestEmphasisSoup(t *testing.T) {
 	kit.Rapid(t, "emphasis", 200000, 12000000, func(t *rapid.T) {
@@ -364,6 +398,12 @@ func TestEmphasisSoup(t *testing.T) {
 		}
 		if blockish(s) {
 			s = "a" + s
+		}
+		if s[0] >= 0x80 {
+			s = "a" + s
+		}
+		if s[len(s)-1] >= 0x80 {
+			s += "a"
 		}
 		c := kit.NewCase("emphasis", "unsafe").B("src", []byte(s))
 		lastRuns = 0
